@@ -398,6 +398,26 @@ func runSeq(c core.Case, prop string, reopen bool) core.Result {
 				if r.Intn(3) == 0 && !doReopen("again, with an empty memtable") {
 					break
 				}
+			case i%17 == 16 && reopens < 14:
+				// a burst of commits without reads in between, then Close at once: several rotated
+				// memtables are still queued (or being flushed) when Close starts
+				okBurst := true
+				for b := 0; b < 3+r.Intn(4) && okBurst; b++ {
+					bw := d.genWrites(window, false)
+					d.logf("commit{%s}", descWrites(bw))
+					okBurst = d.commit(bw)
+				}
+				if okBurst {
+					if n := d.db.VerifImmutables(); n >= 2 {
+						res.AddObs("reopen_with_>=2_pending_flushes", 1)
+					}
+					doReopen("right after a burst of commits")
+				}
+			case d.db.VerifImmutables() >= 2 && r.Intn(2) == 0:
+				// several rotated memtables still queued: Close has to flush all of them, oldest first
+				if !doReopen("with two or more flushes queued") {
+					break
+				}
 			case d.db.VerifImmutables() > 0 && r.Intn(8) == 0:
 				if !doReopen("with a non-empty flush queue") {
 					break
@@ -488,6 +508,10 @@ func genSeq(tier string, seed int64, prop string, nQuick, nThorough int) []core.
 				"delay": gen.DelayProfiles[r.Intn(len(gen.DelayProfiles))],
 			},
 			N: map[string]int64{"txns": int64(60 + r.Intn(341))}}
+		if prop == "C02" && i%3 == 0 {
+			c.S["delay"] = "slow-flusher" // reopen with flushes pending needs a lagging flusher
+			c.S["drain"] = "never"
+		}
 		if i%12 == 5 {
 			c.N["big"] = 1
 			c.N["txns"] = int64(30 + r.Intn(60))
